@@ -22,6 +22,67 @@ Definition Tevent (e : event) : T :=
 Definition Tcall (c : call) : T :=
   Tl [Tbool (c_fin c); Tj (c_val c); Topt Tj (c_err c)].
 
+(* META_EXCLUDE of the repaired code under CPython 3.12 (dir(Event()) + the names added in node/utils.py);
+   the harness emits [excl_std] when the running code has exactly this set, the literal set otherwise *)
+Definition excl_std : list (list N) :=
+  [[95;95;99;108;97;115;115;95;95]%N;
+   [95;95;100;101;108;97;116;116;114;95;95]%N;
+   [95;95;100;105;99;116;95;95]%N;
+   [95;95;100;105;114;95;95]%N;
+   [95;95;100;111;99;95;95]%N;
+   [95;95;101;113;95;95]%N;
+   [95;95;102;111;114;109;97;116;95;95]%N;
+   [95;95;103;101;95;95]%N;
+   [95;95;103;101;116;97;116;116;114;105;98;117;116;101;95;95]%N;
+   [95;95;103;101;116;105;116;101;109;95;95]%N;
+   [95;95;103;101;116;115;116;97;116;101;95;95]%N;
+   [95;95;103;116;95;95]%N;
+   [95;95;104;97;115;104;95;95]%N;
+   [95;95;105;110;105;116;95;95]%N;
+   [95;95;105;110;105;116;95;115;117;98;99;108;97;115;115;95;95]%N;
+   [95;95;108;101;95;95]%N;
+   [95;95;108;116;95;95]%N;
+   [95;95;109;111;100;117;108;101;95;95]%N;
+   [95;95;110;101;95;95]%N;
+   [95;95;110;101;119;95;95]%N;
+   [95;95;114;101;100;117;99;101;95;95]%N;
+   [95;95;114;101;100;117;99;101;95;101;120;95;95]%N;
+   [95;95;114;101;112;114;95;95]%N;
+   [95;95;115;101;116;97;116;116;114;95;95]%N;
+   [95;95;115;101;116;105;116;101;109;95;95]%N;
+   [95;95;115;101;116;115;116;97;116;101;95;95]%N;
+   [95;95;115;105;122;101;111;102;95;95]%N;
+   [95;95;115;116;114;95;95]%N;
+   [95;95;115;117;98;99;108;97;115;115;104;111;111;107;95;95]%N;
+   [95;95;119;101;97;107;114;101;102;95;95]%N;
+   [97;108;101;114;116;95;100;111;110;101]%N;
+   [97;114;103;115]%N;
+   [99;97;110;99;101;108]%N;
+   [99;97;110;99;101;108;108;101;100]%N;
+   [99;97;117;115;101]%N;
+   [99;104;97;110;110;101;108;115]%N;
+   [99;104;105;108;100]%N;
+   [99;111;109;112;108;101;116;101]%N;
+   [99;111;109;112;108;101;116;101;95;99;104;97;110;110;101;108;115]%N;
+   [99;114;101;97;116;101]%N;
+   [101;102;102;101;99;116;115]%N;
+   [102;97;105;108;117;114;101]%N;
+   [104;97;110;100;108;101;114]%N;
+   [107;119;97;114;103;115]%N;
+   [110;97;109;101]%N;
+   [110;111;100;101;95;99;97;108;108;95;105;100]%N;
+   [110;111;100;101;95;115;111;99;107]%N;
+   [110;111;100;101;95;119;105;116;104;111;117;116;95;114;101;115;117;108;116]%N;
+   [110;111;116;105;102;121]%N;
+   [112;97;114;101;110;116]%N;
+   [115;116;111;112]%N;
+   [115;116;111;112;112;101;100]%N;
+   [115;117;99;99;101;115;115]%N;
+   [115;117;99;99;101;115;115;95;99;104;97;110;110;101;108;115]%N;
+   [117;105;100]%N;
+   [118;97;108;117;101]%N;
+   [119;97;105;116;105;110;103;72;97;110;100;108;101;114;115]%N].
+
 (* recorded json.dumps / json.loads calls *)
 Fixpoint tbl_dumps (t : list (json * list N)) (j : json) : option (list N) :=
   match t with [] => None | (k, v) :: r => if json_eqb j k then Some v else tbl_dumps r j end.
